@@ -77,10 +77,12 @@ static void run_one(Ctx& ctx, int k, uint64_t N, int64_t p, const std::vector<in
 static void run_work(Ctx& ctx, const Work& w) {
   const uint64_t N = w.N; const int k = w.kern;
   std::vector<int64_t> v = probe_for(k, N), e, tmp;
+  std::vector<int64_t> vs = v; for (uint64_t j = 1; j < N; j += 3) vs[j] = 0;
   GBuf in(N * 8, 8), out(N * 8, 24);
   for (uint64_t r = w.p0; r < w.p1; ++r) {
     if (is_aut(k) && !(r & 1)) continue;
     run_one(ctx, k, N, (int64_t)r, v, in, out, e, tmp, "");
+    run_one(ctx, k, N, (int64_t)r, vs, in, out, e, tmp, "|sparse");  // the same probe with every third coefficient zero (output prefilled with a non-zero pattern)
     // other representatives of the residue class
     bool all_classes = N <= 64;
     bool sel = all_classes || r == 0 || r == 1 || r == N - 1 || r == N || r == N + 1 || r == 2 * N - 1;
